@@ -63,6 +63,12 @@ M = [
  ("c07_backward_size_u32_again", "C07", "src/decode/xz.rs",
   "        let expected_index_size = (u64::from(backward_size) + 1) << 2;",
   "        let expected_index_size = u64::from((backward_size + 1) << 2);"),
+ ("c18_sha256_refused_only_when_a_block_is_checked", "C18", "src/decode/xz.rs",
+  "    if header.stream_flags.check_method == CheckMethod::Sha256 {",
+  "    if false && header.stream_flags.check_method == CheckMethod::Sha256 {"),
+ ("c10_window_copied_before_each_wrap_flush", "C10", "src/decode/lzbuffer.rs",
+  "            self.stream.write_all(self.buf.as_slice())?;\n            self.cursor = 0;",
+  "            let window = self.buf.to_vec();\n            self.cursor = 0;\n            self.stream.write_all(&window)?;"),
  ("c08_final_size_check_removed", "C08", "src/decode/lzma.rs",
   "            if mode == ProcessingMode::Finish && len != output.len() as u64 {",
   "            if mode == ProcessingMode::Finish && len > output.len() as u64 {"),
@@ -127,8 +133,10 @@ M = [
   "        if !rangecoder.is_finished_ok()? {\n            return Err(error::Error::LzmaError(String::from(\n                \"LZMA2 chunk does not end",
   "        if false && !rangecoder.is_finished_ok()? {\n            return Err(error::Error::LzmaError(String::from(\n                \"LZMA2 chunk does not end"),
  ("c18_sha256_skipped_and_accepted", "C18", "src/decode/xz.rs",
-  "            return Err(error::Error::XzError(\n                \"Unsupported SHA-256 checksum (not yet implemented)\".to_string(),\n            ));",
-  "            let mut skipped = [0u8; 32];\n            input.read_exact(&mut skipped)?;"),
+  ("            return Err(error::Error::XzError(\n                \"Unsupported SHA-256 checksum (not yet implemented)\".to_string(),\n            ));",
+   "    if header.stream_flags.check_method == CheckMethod::Sha256 {"),
+  ("            let mut skipped = [0u8; 32];\n            input.read_exact(&mut skipped)?;",
+   "    if false && header.stream_flags.check_method == CheckMethod::Sha256 {")),
  ("c18_reserved_block_flag_mask_narrowed", "C18", "src/decode/xz.rs",
   "    let reserved = flags & 0x3C;",
   "    let reserved = flags & 0x30;"),
@@ -147,10 +155,13 @@ def main():
         for name, prop, f, old, new in M:
             p = os.path.join(wt, f)
             s = open(p).read()
-            if s.count(old) != 1:
-                print("SKIP %s: anchor occurs %d times" % (name, s.count(old)))
+            olds, news = (old, new) if isinstance(old, tuple) else ((old,), (new,))
+            if any(s.count(o) != 1 for o in olds):
+                print("SKIP %s: anchor occurs %s times" % (name, [s.count(o) for o in olds]))
                 continue
-            open(p, "w").write(s.replace(old, new, 1))
+            for o, n in zip(olds, news):
+                s = s.replace(o, n, 1)
+            open(p, "w").write(s)
             d = subprocess.check_output(["git", "-C", wt, "diff"]).decode()
             open(os.path.join(out, name + ".patch"), "w").write(d)
             subprocess.check_call(["git", "-C", wt, "checkout", "-q", "--", "."])
